@@ -55,9 +55,9 @@ CHECKS.update(
                 "the allowed transition relation taken from the statement, to raise (leaving the task unchanged) exactly in the stated states, and to preserve the task "
                 "representation invariant; lemmas show COMPLETED/CANCELLED/EVICTED have no outgoing edge, CANCELLED is entered only before running and RUNNING only from "
                 "SCHEDULED/PREEMPTED; a scan shows _state is written only inside Task. TaskGraph.is_sink_task / get_sink_tasks / is_complete / is_cancelled are proved against the definition (finished EXACTLY when every sink - no child, or only the same task of the next timestamp - is complete). "
-                "Simulator.__handle_task_cancellation is proved to drop the pending placement of a cancelled task from the queue and the cache. Cancellation closure (TaskGraph.cancel) is bounded (labelled so)."
+                "Simulator.__handle_task_cancellation is proved to drop the pending placement of a cancelled task from the queue and the cache; Simulator.__handle_task_preempt moves a task from RUNNING to PREEMPTED after taking it off its pool. Cancellation closure (TaskGraph.cancel) is bounded (labelled so)."
             ),
-            note=BASE_NOTE + " Specific: Task.__init__ is an assumed contract; log-statement arguments are assumed pure; TaskGraph.cancel is decided only by the bounded stand-in.",
+            note=BASE_NOTE + " Specific: Task.__init__ is verified (the random id, its hash and `_last_step_time = -1` are dropped: fields left unconstrained); log-statement arguments are assumed pure; TaskGraph.cancel is decided only by the bounded stand-in.",
             design_ref="DESIGN.md section 6 (C06)",
         ),
         "C19": dict(
@@ -95,8 +95,8 @@ CHECKS.update(
         "C12": dict(
             category="exploration",
             technique="captured solver-model implication for the deadline rows / cell pruning on bounded instances; run-level cancellation check",
-            text="Bounded in instances (deadlines past / tight / loose), complete in solutions: placed => start + chosen runtime <= deadline at every feasible point; hopeless tasks cancelled (CPLEX) or unplaced (ILP, Gurobi). EDF / FIFO admission is proved (pyvc obligations admit.cancel_only_if_hopeless / admit.hopeless_is_cancelled: a cancellation is issued iff enforcement is on and deadline < now + fastest runtime); Clockwork admission by small-scope enumeration.",
-            note="Bounded for the optimisation policies and Clockwork; EDF/FIFO admission proved against the assumed get_fastest_strategy contract.",
+            text="Bounded in instances (deadlines past / tight / loose), complete in solutions: placed => start + chosen runtime <= deadline at every feasible point; hopeless tasks cancelled (CPLEX) or unplaced (ILP, Gurobi). EDF / FIFO admission is proved (pyvc obligations admit.cancel_only_if_hopeless / admit.hopeless_is_cancelled: a cancellation is issued iff enforcement is on and deadline < now + fastest runtime); Clockwork admission (ClockworkScheduler.run_admission) is proved the same way (admit.cancel_only_if_hopeless / admit.hopeless_is_never_queued) and additionally by small-scope enumeration.",
+            note="Bounded for the optimisation policies and the Clockwork batching decisions; EDF / FIFO / Clockwork admission proved (get_fastest_strategy verified; Models.add_task assumed).",
             design_ref="DESIGN.md section 6 (C12)",
         ),
         "C14": dict(
@@ -161,7 +161,10 @@ CHECKS.update(
             technique=PYVC + " (safety half only: clock progress obligations); " + WORLDS + " with CPU-time alarms for termination; liveness is NOT decided",
             text=(
                 "Deductive verification is silent on liveness. Proved: __step never moves the clock backwards, Task.step's zero-remaining behaviour is pinned by contract (the root of the "
-                "known zero-runtime livelock), and a placement that is neither applied nor dropped is re-queued STRICTLY later (obligation placement.retry_strictly_later: no same-instant retry loop). Bounded: every enumerated small world must reach a single SIMULATOR_END no later than the timeout, complete all tasks under a "
+                "known zero-runtime livelock), and a placement that is neither applied nor dropped is re-queued STRICTLY later (obligation placement.retry_strictly_later: no same-instant retry loop). Thorough tier only (190 paths, 2774 obligations): "
+                "Simulator.__get_next_scheduler_event returns a SIMULATOR_END or SCHEDULER_START event; SIMULATOR_END before the timeout only when no event is pending and no placement is cached; outside the run-at-worker-free mode "
+                "the next SCHEDULER_START is not before the finished invocation, strictly before the loop timeout, honours the period, and is strictly later when the scheduler is late or aperiodic (four side-effect-free sub-expressions "
+                "outside the subset are declared opaque, listed in the evidence). EventQueue.get_next_event_of_type returns the first pending event of a type. Bounded: every enumerated small world must reach a single SIMULATOR_END no later than the timeout, complete all tasks under a "
                 "work-conserving policy, and never end with released runnable work. The general claims 'every run terminates' and 'feasible work always finishes' are whole-history "
                 "liveness and are not decided by any contract here."
             ),
